@@ -417,6 +417,15 @@ def cases(shard, nshards, seed, tier):
     for j, fn in enumerate(STRUCTS):
         if (tier != "quick" or j % 2 == 0) and mine():
             yield {"family": "adapter-two-listings", "file": fn, "ops": [], "gaps": j % 4 == 0}
+    # ... for structures with insertion codes (unit ids with eight fields: 1EHZ|1|A|C|27|||A)
+    for fn in ("tests/1ehz-assembly-1.cif", "tests/1E7K_1_C.cif", "tests/4qln.cif"):
+        if mine():
+            yield {"family": "adapter-two-listings", "file": fn, "ops": [{"op": "icodes", "seed": "c06-adapter", "frac": 0.6}], "gaps": False}
+    # a pair list obtained on the mmCIF reading of a table (its residues carry label AND author identifiers) mapped onto
+    # the PDB reading of the same table (author identifiers only)
+    for fn in ("tests/4qln.cif", "tests/1ehz-assembly-1.cif", "tests/1E7K_1_C.cif", "tests/1DFU_1_M-N.cif"):
+        if mine():
+            yield {"family": "pairs-from-the-other-reading", "file": fn, "ops": [], "gaps": False}
     # ... for a structure whose chain identifier is blank (PDB files with an empty column 22): unit ids read 1ATO|1| |G|1
     for fn in ("tests/1ATO.pdb", "tests/1A1T_1_B.cif"):
         if mine():
@@ -568,6 +577,8 @@ def _adapter_two_listings(case, rec):
 
     seed = os.environ.get("VERIF_SEED", "0")
     s = gen3d.load(case["file"])
+    if case.get("ops"):
+        s = gen3d.apply_ops(s, case["ops"])
     if case.get("blank_chain"):
         from rnapolis.common import ResidueAuth
 
@@ -608,9 +619,43 @@ def _adapter_two_listings(case, rec):
         rec.check("adapter.mapping-is-of-its-own-listing", got == want, lambda: {"ctx": _cur["ctx"], "paired-lines": [sum(1 for l in t.splitlines() if not l.endswith(" 0")) for t in (got, want)]})
 
 
+def _pairs_from_the_other_reading(case, rec):
+    from rnapolis import annotator, tertiary
+    from vmon import emit
+
+    clause = "mapping.same-for-pairs-named-by-label-and-author"
+    res = emit.format_twins(gen3d.load(case["file"]))
+    if res is None:
+        rec.skip(clause, "table outside PDB limits")
+        return
+    s_pdb, s_cif = res
+    try:
+        p_cif = annotator.extract_base_interactions(s_cif).basePairs
+        p_pdb = annotator.extract_base_interactions(s_pdb).basePairs
+    except Exception as e:
+        rec.undecided(clause, f"annotation raised {type(e).__name__}")
+        return
+    ak = lambda r: (r.auth.chain, r.auth.number, r.auth.icode, r.auth.name) if r.auth is not None else None
+    key = lambda ps: [(ak(p.nt1), ak(p.nt2), p.lw.value) for p in ps]
+    if key(p_cif) != key(p_pdb) or any(p.nt1.label is None or p.nt1.auth is None for p in p_cif):
+        rec.skip(clause, "the two readings are annotated differently (C05's business)")
+        return
+    rec.mark_nontrivial(bool(p_cif))
+    _cur["ctx"] = {"file": case["file"], "pairs": "annotated on the mmCIF reading (label + author identifiers)", "structure": "PDB reading (author identifiers)"}
+    try:
+        got = str(tertiary.Mapping2D3D(s_pdb, p_cif, [], False).bpseq)
+        want = str(tertiary.Mapping2D3D(s_pdb, p_pdb, [], False).bpseq)
+    except Exception as e:
+        rec.violation("mapping.no-crash", {"ctx": _cur["ctx"], "exception": repr(e)[:300]}, mechanism=f"crash:{type(e).__name__}")
+        return
+    rec.check(clause, got == want, lambda: {"ctx": _cur["ctx"], "paired-lines": [sum(1 for l in t.splitlines() if not l.endswith(" 0")) for t in (got, want)]})
+
+
 def run_case(case, rec):
     if case["family"] == "cli-vs-library":
         return _cli_vs_library(case, rec)
+    if case["family"] == "pairs-from-the-other-reading":
+        return _pairs_from_the_other_reading(case, rec)
     if case["family"] == "adapter-two-listings":
         return _adapter_two_listings(case, rec)
     from rnapolis import annotator, tertiary
